@@ -316,6 +316,13 @@ fn compress_literals(
     last_table: Option<&huff0_encoder::HuffmanTable>,
     writer: &mut BitWriter<&mut Vec<u8>>,
 ) -> Option<huff0_encoder::HuffmanTable> {
+    // A Huffman table needs at least two distinct symbols. Literals consisting of a single
+    // byte value can occur when a matcher covers everything else with matches.
+    if literals.iter().all(|x| *x == literals[0]) {
+        raw_literals(literals, writer);
+        return None;
+    }
+
     let reset_idx = writer.index();
 
     let new_encoder_table = huff0_encoder::HuffmanTable::build_from_data(literals);
